@@ -1,7 +1,9 @@
 // C09 harness, part 3: random program generator (the "random driver").
 //
-// Programs range over the index domain {1,2,3,7,2^40,2^40+1,2^62,MaxIndex} (and
-// their neighbours as DeleteRange bounds), all six raft log types, all payload
+// Programs range over the index domain {1,2,3,7,2^40,2^40+1,2^62,"stablest",
+// "stablest"+1,2^63,2^63+1,2^64-2} (and their neighbours as DeleteRange bounds):
+// five of them sort after the "stablestore-" keys of the shared keyspace.  The
+// "hot" indexes of a program are all below, all above, or mixed. all six raft log types, all payload
 // classes, extensions present/absent, append time zero/non-zero, every stable
 // key/value of the tables, Close/Open and Kill/Open in either encoding at random
 // positions, ConvertToProto.  The generator only writes programs; they are
@@ -20,7 +22,8 @@ import (
 	"testing"
 )
 
-var randomIndexes = []uint64{1, 2, 3, 7, 1 << 40, 1<<40 + 1, 1 << 62, MaxIndex}
+var randomIndexes = []uint64{1, 2, 3, 7, 1 << 40, 1<<40 + 1, 1 << 62,
+	StableBoundary, StableBoundary + 1, 1 << 63, 1<<63 + 1, MaxIndex}
 
 func randomDomain() (vals []string, dom []int) {
 	set := map[uint64]bool{0: true}
@@ -52,6 +55,7 @@ func randomDomain() (vals []string, dom []int) {
 type gen struct {
 	rnd  *rand.Rand
 	dom  []int
+	pool []int
 	hot  []int
 	keys []int
 	nval int
@@ -60,6 +64,9 @@ type gen struct {
 func (g *gen) idx() int {
 	if g.rnd.Intn(100) < 75 {
 		return g.hot[g.rnd.Intn(len(g.hot))]
+	}
+	if g.rnd.Intn(100) < 60 {
+		return g.pool[g.rnd.Intn(len(g.pool))]
 	}
 	return g.dom[g.rnd.Intn(len(g.dom))]
 }
@@ -85,11 +92,28 @@ func (g *gen) program(id string, nops, killPct int) *Program {
 	for k := 1; k < len(keysTab); k++ {
 		p.KDom = append(p.KDom, k)
 	}
-	perm := g.rnd.Perm(len(p.Dom))
+	nbelow := 0
+	for _, v := range randomIndexes {
+		if v <= StableBoundary {
+			nbelow++
+		}
+	}
+	pool := p.Dom // mixed
+	switch g.rnd.Intn(3) {
+	case 0:
+		pool = p.Dom[:nbelow]
+	case 1:
+		pool = p.Dom[nbelow:]
+	}
+	g.pool = pool
+	perm := g.rnd.Perm(len(pool))
 	nh := 3 + g.rnd.Intn(3)
+	if nh > len(pool) {
+		nh = len(pool)
+	}
 	g.hot = nil
 	for _, j := range perm[:nh] {
-		g.hot = append(g.hot, p.Dom[j])
+		g.hot = append(g.hot, pool[j])
 	}
 	sort.Ints(g.hot)
 	p.Ops = append(p.Ops, Op{Op: "Open", Enc: g.rnd.Intn(2)})
